@@ -15,6 +15,11 @@ def table_battery(battery):
         ctx, orc = B.make(concepts, case)
         fails += battery(ctx, orc)
         fails += [f'(second pass over the same objects) {f}' for f in battery(ctx, orc)]
+        if not fails and battery not in (B.b11, B.b14, B.b15, B.b16):
+            loaded = concepts.Context.fromdict(ctx.todict())
+            fails += [f'(context reloaded with fromdict(todict()), stored lattice) {f}' for f in battery(loaded, orc)]
+            rebuilt = concepts.Context(*ctx.definition())
+            fails += [f'(context rebuilt from its definition) {f}' for f in battery(rebuilt, orc)]
         if not fails and case.get('probe'):
             pc = B.probe_case(case)
             if pc is not None:
